@@ -2,6 +2,8 @@
 (* Well-formedness of an error record, and the path codec.                    *)
 (* An error as observed: [origin, msgLen, rule, rules (the rule set that ran), *)
 (*  locs: [l, c]*, file, srcNames (names of the sources the call was given),   *)
+(*  locsInFile (per location: that line and column exist in the text of the   *)
+(*  named file; empty when the harness does not have the texts),             *)
 (*  json: [keys, locKeys (keys of every location object), locVals (line,       *)
 (*  column numbers as decoded from JSON), pathKinds ("s" | "i")*, msgIsString]]*)
 EXTENDS Integers, Sequences, FiniteSets
@@ -18,6 +20,8 @@ WF(e) ==
        THEN "error does not carry the name of the source it came from (every source given to the call is named)"
   ELSE IF e.origin = "limit" /\ "LimitErrorBare" \notin Devs /\ (e.file \notin ToSet(e.srcNames) \/ Len(e.locs) = 0)
        THEN "token-limit error does not carry a location and the name of the source"
+  ELSE IF \E j \in 1..Len(e.locsInFile) : ~e.locsInFile[j]
+       THEN "a location (line, column) does not exist in the file the error names"
   ELSE IF ~(ToSet(e.json.keys) \subseteq {"message", "locations", "path", "extensions"}) THEN "JSON encoding has a key the response format does not define"
   ELSE IF "message" \notin ToSet(e.json.keys) \/ ~e.json.msgIsString THEN "JSON encoding lacks a string message"
   ELSE IF \E j \in 1..Len(e.json.locKeys) : ToSet(e.json.locKeys[j]) # {"line", "column"} THEN "JSON location is not {line, column}"
